@@ -20,8 +20,9 @@ AttrsOK(f, exp) ==
        g.id \in DOMAIN exp =>
           LET x == exp[g.id] IN
           /\ g.a.bools = Range(x.bools)
-          /\ IF x.fg = <<>> THEN g.a.fg = <<>> ELSE g.a.fg \in Range(x.fg)
-          /\ IF x.bg = <<>> THEN g.a.bg = <<>> ELSE g.a.bg \in Range(x.bg)
+          \* colours applied to the glyph, innermost first: the innermost one of each plane is what shows
+          /\ IF x.fg = <<>> THEN g.a.fg = <<>> ELSE g.a.fg = x.fg[1]
+          /\ IF x.bg = <<>> THEN g.a.bg = <<>> ELSE g.a.bg = x.bg[1]
 
 Failed(e) ==
     LET f == GlyphFold(e.toks) st == f.st want == Range(e.chk) IN
